@@ -2027,9 +2027,13 @@ m("C03", "lookahead-class-letters", "parser.py",
   r"""    r'(?P<simple_value>(?![ \\n\\t\\r]*=)))',""")
 m("C15", "class-name-after-body", "template.py",
   '''        sha.update(class_name + b'\\n')
-        sha.update(filename.encode('utf-8', 'surrogatepass') + b'\\n')
+        # (as a literal: a file name is arbitrary text, a line break in
+        # it must not end the field)
+        sha.update(
+            repr(filename).encode('utf-8', 'surrogatepass') + b'\\n')
         sha.update(body.encode('utf-8', 'surrogatepass'))''',
-  '''        sha.update(filename.encode('utf-8', 'surrogatepass') + b'\\n')
+  '''        sha.update(
+            repr(filename).encode('utf-8', 'surrogatepass') + b'\\n')
         sha.update(body.encode('utf-8', 'surrogatepass'))
         sha.update(class_name)''')
 m("C15", "body-encoding-ignores-errors", "template.py",
@@ -2592,3 +2596,16 @@ m("C15", "local-class-without-identity", "template.py",
 m("C15", "class-name-dropped-from-key", "template.py",
   """        class_name = qualified.encode('utf-8')""",
   """        class_name = b'template'""")
+
+
+# ---- fix (file name as a literal in the key)
+m("C15", "filename-raw-in-key", "template.py",
+  """        sha.update(
+            repr(filename).encode('utf-8', 'surrogatepass') + b'\\n')""",
+  """        sha.update(filename.encode('utf-8', 'surrogatepass') + b'\\n')""")
+m("C15", "refactor-filename-length-prefixed", "template.py",
+  """        sha.update(
+            repr(filename).encode('utf-8', 'surrogatepass') + b'\\n')""",
+  """        name_bytes = filename.encode('utf-8', 'surrogatepass')
+        sha.update(b'%d:' % len(name_bytes) + name_bytes + b'\\n')""",
+  expect="silent")
